@@ -203,7 +203,16 @@ def evaluate(
             if not propositionally_unsatisfiable(
                 reduce(Formula.__and__, qfr_free_assumptions, sc.true())
             ):
-                return ThreeValuedTruth.false()
+                # For an open tree, the SMT formula only approximates the constraint
+                # (quantifiers over open trees and predicates that are not ready are
+                # replaced by fresh predicates, open subtrees by free variables). That
+                # it is not valid then does not mean that the constraint is false for
+                # the completions of the tree.
+                return (
+                    ThreeValuedTruth.unknown()
+                    if reference_tree.is_open()
+                    else ThreeValuedTruth.false()
+                )
         else:
             assert smt_result.is_true()
 
